@@ -87,8 +87,12 @@ def decoder_subcode(kind):
 
 def abstract_kind(kind, st):
     """concrete kind consumed in FSM state st -> kind code of the model"""
-    if kind in ('OpenOk', 'OpenOkLow'):
+    if kind in ('OpenOk', 'OpenOkLow', 'OpenOkExt'):
         return K_OPENOK
+    if kind.startswith('UpdateBig'):
+        return K_UPDATEOK
+    if kind == 'HeaderOver4097':
+        return k_headererr(2)
     if kind in ('OpenBadVersion', 'OpenBadParam'):
         return k_openbad(decoder_subcode(kind))  # refused by the OPEN decoder itself, in every state
     if kind in ('OpenBadAs', 'OpenBadId', 'OpenBadHold'):
@@ -128,7 +132,7 @@ def rfc_answer(kind, st):
     # s6.1: the header is checked first, in every state
     if kind == 'HeaderBadMarker':
         return {(1, 1)}
-    if kind in ('HeaderShortLen', 'HeaderLongLen', 'HeaderKaLen'):
+    if kind in ('HeaderShortLen', 'HeaderLongLen', 'HeaderKaLen', 'HeaderOver4097'):
         return {(1, 2)}
     if kind == 'UnknownType':
         return {(1, 3)}
@@ -280,6 +284,28 @@ def apifail_cases():
     return cases
 
 
+def msgsize_cases():
+    """the negotiated message size (RFC 8654) as the session applies it: both sides announce Extended Message and the
+    peer sends valid UPDATEs of 5000 and 65535 octets; or it is not negotiated and 4096 passes, 4097 is answered 1/2.
+    In normal mode (OPEN sent first) the scripts are in the correspondence; with `local-as auto` (the peer's OPEN is read
+    first, ours is sent after it) they are ORACLE-ONLY: Model_Session models the order of a configured local AS."""
+    cases = []
+    big = [['recv', 'Keepalive'], ['recv', 'UpdateBig5000'], ['recv', 'Keepalive'], ['recv', 'UpdateBig65535'], ['recv', 'UpdateOk'], ['recv', 'UpdateBig4097'], ['tick', 1.0]]
+    small = [['recv', 'Keepalive'], ['recv', 'UpdateBig4096'], ['recv', 'UpdateOk'], ['tick', 1.0]]
+    over = [['recv', 'Keepalive'], ['recv', 'UpdateBig4096'], ['recv', 'HeaderOver4097'], ['tick', 1.0]]
+    for conf in ('ext', 'auto'):
+        oo = conf == 'auto'
+        for start_name, start in (('outgoing', [['connect_ok', None]]), ('accepted', [['incoming', None, 0.3]])):
+            est_ext = start + [['recv', 'OpenOkExt'], ['recv', 'Keepalive'], ['tick', 0.6]]
+            est_no = start + [['recv', 'OpenOk'], ['recv', 'Keepalive'], ['tick', 0.6]]
+            cases.append({'name': f'msgsize:{conf}:{start_name}:extended:big', 'conf': conf, 'oracle_only': oo, 'expect_up': True, 'steps': est_ext + big})
+            cases.append({'name': f'msgsize:{conf}:{start_name}:extended:split', 'conf': conf, 'oracle_only': oo, 'expect_up': True,
+                          'steps': est_ext + [['recv_part', ['UpdateBig5000', 0, 4096], 0.25], ['recv_part', ['UpdateBig5000', 4096, -1]], ['recv', 'Keepalive'], ['tick', 1.0]]})
+            cases.append({'name': f'msgsize:{conf}:{start_name}:plain:4096', 'conf': conf, 'oracle_only': oo, 'expect_up': True, 'steps': est_no + small})
+            cases.append({'name': f'msgsize:{conf}:{start_name}:plain:4097', 'conf': conf, 'oracle_only': oo, 'steps': est_no + over})
+    return cases
+
+
 def random_case(rng, maxlen):
     n = rng.randint(3, maxlen)
     steps = []
@@ -323,7 +349,7 @@ def _worker(case):
     signal.signal(signal.SIGALRM, too_long)
     signal.alarm(120)
     try:
-        res = hpeer.run_script(case['steps'], api_subs=bool(case.get('api')))
+        res = hpeer.run_script(case['steps'], conf=case.get('conf', 'base'), api_subs=bool(case.get('api')))
         return res
     except BaseException as exc:  # a crash of the rig itself is a harness failure, reported as such
         import traceback
@@ -369,8 +395,8 @@ def abstract(log):
             name, arg, st = e[1], e[2], e[3]
             if name == 'Recv':
                 ev = [4, abstract_kind(arg, st)]
-                if arg in ('OpenOk', 'OpenOkLow') and st == 8:
-                    rid_ge = arg == 'OpenOk'
+                if arg in ('OpenOk', 'OpenOkLow', 'OpenOkExt') and st == 8:
+                    rid_ge = arg != 'OpenOkLow'
             elif name == 'Incoming':
                 ev = [3, 1 if rid_ge else 0]
             elif name == 'Teardown':
@@ -466,7 +492,8 @@ def oracle(log, res, which=('C05', 'C10')):
         if name == 'ProcessBroken':
             pb = True
         if name == 'Recv' and owned is not None:
-            if arg in ('OpenOk', 'OpenOkLow') and st0 == 8:
+            # (OPENSENT; CONNECT when the local AS is mirrored: the peer's OPEN is read before ours is sent)
+            if arg in ('OpenOk', 'OpenOkLow', 'OpenOkExt') and st0 in (4, 8):
                 tinfo[owned]['open_rcvd'] = True
             if arg == 'Keepalive' and tinfo[owned]['open_rcvd']:
                 tinfo[owned]['ka_rcvd'] = True
@@ -598,9 +625,12 @@ def expectations(case, res, which):
     out = []
     if case.get('expect_up') and 'C10' in which:
         skipped = set(res.get('skipped', []))
-        # a shrunk script that lost its handshake promises nothing
-        kinds = [s[1] if s[0] == 'recv' else (s[1][0] if s[0] == 'recv_part' else None) for k, s in enumerate(case['steps']) if k not in skipped]
-        if res.get('final_fsm') != 32 and 'Keepalive' in kinds and 'OpenOk' in kinds and not skipped:
+        # a shrunk script that lost its handshake promises nothing (steps skipped AFTER the session was ended do not matter)
+        def kind_of(st):
+            return st[1] if st[0] == 'recv' else (st[1][0] if st[0] == 'recv_part' else None)
+
+        delivered = [kind_of(st) for k, st in enumerate(case['steps']) if k not in skipped]
+        if res.get('final_fsm') != 32 and 'Keepalive' in delivered and any(str(k).startswith('OpenOk') for k in delivered):
             last = [e for e in res['log'] if e[0] == 'w' and e[2] == 'NOTIFICATION']
             said = f'{last[-1][3]}/{last[-1][4]}' if last else 'nothing'
             out.append((f'C10:fault-free-session-ended:{said}',
@@ -793,7 +823,7 @@ def campaign(run: Run, tier, seed, which, cases_override=None):
     maxlen = 12 if tier == 'quick' else 30
     cases += [random_case(rng, maxlen) for _ in range(n_random)]
     if cases_override is None:
-        cases += interleaved() + apifail_cases()
+        cases += interleaved() + apifail_cases() + msgsize_cases()
     if tier != 'quick' and cases_override is None:
         # small scope: every pair of stimuli after every prefix that reaches OPENSENT or later
         small = [['recv', k] for k in ('OpenOk', 'Keepalive', 'UpdateOk', 'Notification', 'UnknownType', 'OpenBadAs', 'UpdateBadNlri', 'Refresh')] + [
@@ -901,7 +931,8 @@ def campaign(run: Run, tier, seed, which, cases_override=None):
         'observations_not_flagged': dict(notes),
         'oracle_only_scripts': {
             'count': sum(1 for c in cases if c.get('oracle_only')),
-            'why': 'API-helper failures (apifail_cases): the recording Processes raises ProcessError once at a chosen callback (fsm / down / up / '
+            'why': 'local-as auto scripts of msgsize_cases (the peer OPEN is read before ours is sent: Model_Session models the order of a '
+                   'configured local AS).  API-helper failures (apifail_cases): the recording Processes raises ProcessError once at a chosen callback (fsm / down / up / '
                    'connected / per-message events) during set-up and during every kind of teardown; Model_Session has no event for it (where the '
                    'implementation stops depends on which call fails), these traces are judged by the property oracle only.  The interleaved '
                    'scripts (split messages, reload, last-pause arrivals) ARE in the correspondence.',
